@@ -1,0 +1,15 @@
+//go:build verif
+
+package gateway
+
+import (
+	"github.com/openkruise/rollouts/api/v1beta1"
+	gatewayv1beta1 "sigs.k8s.io/gateway-api/apis/v1beta1"
+)
+
+// VerifBuildDesiredHTTPRoute exposes the unexported pure builder to the
+// verification harness (build tag `verif` only; nothing changes without it).
+func VerifBuildDesiredHTTPRoute(conf Config, rules []gatewayv1beta1.HTTPRouteRule, weight *int32, matches []v1beta1.HttpRouteMatch) []gatewayv1beta1.HTTPRouteRule {
+	r := &gatewayController{conf: conf}
+	return r.buildDesiredHTTPRoute(rules, weight, matches)
+}
